@@ -644,6 +644,9 @@ func runC03(r *RunCtx) error {
 			return []c03Gauge{{Coins: []c03Coin{{"ujkl", 7}}, Full: true}, {Coins: []c03Coin{{"ujkl", 7}}, Full: true}}
 		}
 	}
+	if err := persistedStorageTwinAs(r, "C03"); err != nil {
+		return err
+	}
 	if err := c03RestartTwin(r); err != nil {
 		return err
 	}
